@@ -36,7 +36,7 @@ for _p in ("C03", "C05"):
     TECH[_p] = _B + "; plus the representation invariant shown inductive with Apalache (capacities up to 32) and proved with TLAPS for unbounded capacity together with the refinement of the ideal key set by every slot-level step (spec/MapInd.tla, spec/MapProof.tla)"
 TECH["C12"] = _B + "; plus a TLAPS proof of stored-key identity for unbounded capacity (spec/MapProofId.tla)"
 for _p in ("C13", "C18"):
-    TECH[_p] = _B + "; plus a symbolic check of the disjoint-borrow stack algorithm with Apalache (spec/MapDisj.tla)"
+    TECH[_p] = _B + "; plus a symbolic check of the disjoint-borrow stack algorithm with Apalache (spec/MapDisj.tla) and its TLAPS proof for any sizes (spec/MapProofDisj.tla: no overflow, no aliasing, agreement with get_mut)"
 for _p in ("C06", "C08", "C14", "C16"):
     TECH[_p] = _B
 for _p in ("C09", "C10"):
@@ -75,7 +75,7 @@ def main():
         "engines": [
             {"name": "pairgraph", "path": "spec/PairSpec.tla + harness/src/pair.rs", "serves_properties": ["C06", "C08", "C14"],
              "kind_free_text": "TLC state graph of two containers with the read-only binary operations, replayed into the real crate"},
-            {"name": "symbolic", "path": "spec/MapRef.tla, spec/MapInd.tla, spec/MapDisj.tla (Apalache); spec/MapProof.tla, spec/MapProofKV.tla, spec/MapProofRetain.tla, spec/MapProofId.tla, spec/MapProofAlg.tla, spec/MapProofEq.tla (TLAPS)", "serves_properties": ["C01", "C03", "C05", "C07", "C08", "C09", "C10", "C12", "C13", "C14", "C18"],
+            {"name": "symbolic", "path": "spec/MapRef.tla, spec/MapInd.tla, spec/MapDisj.tla (Apalache); spec/MapProof.tla, spec/MapProofKV.tla, spec/MapProofRetain.tla, spec/MapProofId.tla, spec/MapProofAlg.tla, spec/MapProofEq.tla, spec/MapProofDisj.tla (TLAPS)", "serves_properties": ["C01", "C03", "C05", "C07", "C08", "C09", "C10", "C12", "C13", "C14", "C18"],
              "kind_free_text": "design-level strengthenings beyond TLC's capacities: one-step refinement of the dictionary from any well-formed state (capacities <= 24), inductive representation invariant (<= 32) and, by TLAPS for unbounded capacity, the invariant together with the refinement of the ideal key set / key-value map by every slot-level step, the disjoint-borrow stack algorithm for arbitrary states; run inside the named checks"},
             {"name": "micro", "path": "spec/MapMicro.tla + harness/src/micro.rs + harness/src/sweep.rs", "serves_properties": ["C04", "C08", "C14", "C17"],
              "kind_free_text": "callback-granular TLA+ model of slot memory (panic at every callback / every outcome of every key comparison), every behaviour replayed into the real crate"},
